@@ -19,6 +19,17 @@ for p in props:
     cases = json.loads(ev.read_text())["coverage"].get("evaluations", "-") if ev.exists() else "-"
     print(f"| {pid} | {p['title']} | {n if n else 'not built'} | {', '.join(op) or '–'} | {', '.join(fx) or '–'} | {cases} |")
 print()
+print("Per property: what is proved for all inputs / histories / schedules, and what is only tied by correspondence "
+      "(from `tools/manifest/Cxx.json`, the same text as MANIFEST.json's level_claimed.text and level_note):")
+print()
+for p in props:
+    mf = ROOT / "tools" / "manifest" / f"{p['id']}.json"
+    if mf.exists():
+        j = json.loads(mf.read_text())
+        print(f"* **{p['id']}** – {j['text']}  *Assumptions / trusted base:* {j['note']}")
+    else:
+        print(f"* **{p['id']}** – not claimed (see `not_applicable` in MANIFEST.json).")
+print()
 print("| finding | status | commit | what |")
 print("|---|---|---|---|")
 for e in find:
